@@ -278,7 +278,8 @@ func (s *Sched) hook(id uintptr, point int) {
 				// the lexer stopped itself (an error of its own)
 				s.selfCancelled[id] = true
 			}
-			if l := s.lookup(id, roleLexer); l != nil && l.st == stBlocked && l.at == EmitBefore {
+			if l := s.lookup(id, roleLexer); l != nil && l.st == stBlocked && (l.at == EmitBefore || l.at == PopWaitBefore) {
+				// the select in emit / in the here-document wait sees the cancellation
 				l.expected = true
 			}
 		}
@@ -354,6 +355,8 @@ func (s *Sched) hook(id uintptr, point int) {
 		case PopWaitBefore:
 			if s.buffered[id] {
 				s.buffered[id] = false
+				p.expected = true
+			} else if s.cancelled[id] {
 				p.expected = true
 			}
 		}
